@@ -134,6 +134,12 @@ impl Compound {
         self.names.len() == 1 && state.power == 1
     }
 
+    /// Iterate over the entries of this compound in map order.
+    #[cfg(feature = "verif")]
+    pub(crate) fn verif_names(&self) -> impl Iterator<Item = (&Unit, &State)> {
+        self.names.iter()
+    }
+
     /// Test if this unit has a numerator.
     pub fn has_numerator(&self) -> bool {
         self.names.values().any(|s| s.power > 0)
